@@ -46,6 +46,15 @@ func (ms MsgServer) RecordBatch(ctx context.Context, req *types.MsgRecordBatch) 
 /////////////////////////////////////////////////////
 // The messages for Bridge Creator
 
+// canonicalAddress returns the canonical string form of a valid address.
+func (ms MsgServer) canonicalAddress(addr string) (string, error) {
+	bz, err := ms.authKeeper.AddressCodec().StringToBytes(addr)
+	if err != nil {
+		return "", err
+	}
+	return ms.authKeeper.AddressCodec().BytesToString(bz)
+}
+
 func (ms MsgServer) CreateBridge(ctx context.Context, req *types.MsgCreateBridge) (*types.MsgCreateBridgeResponse, error) {
 	if err := req.Validate(ms.authKeeper.AddressCodec()); err != nil {
 		return nil, err
@@ -67,6 +76,14 @@ func (ms MsgServer) CreateBridge(ctx context.Context, req *types.MsgCreateBridge
 
 	bridgeId, err := ms.IncreaseNextBridgeId(ctx)
 	if err != nil {
+		return nil, err
+	}
+
+	// store the roles in their canonical spelling (see UpdateProposer)
+	if req.Config.Proposer, err = ms.canonicalAddress(req.Config.Proposer); err != nil {
+		return nil, err
+	}
+	if req.Config.Challenger, err = ms.canonicalAddress(req.Config.Challenger); err != nil {
 		return nil, err
 	}
 
@@ -370,7 +387,14 @@ func (ms MsgServer) UpdateProposer(ctx context.Context, req *types.MsgUpdateProp
 		return nil, govtypes.ErrInvalidSigner.Wrapf("invalid authority; expected %s or %s, got %s", ms.authority, config.Proposer, req.Authority)
 	}
 
-	config.Proposer = req.NewProposer
+	// the role guards compare address strings: store the canonical spelling, so that the new proposer
+	// is recognised when it signs with it (a bech32 address may also be written in upper case)
+	newProposer, err := ms.canonicalAddress(req.NewProposer)
+	if err != nil {
+		return nil, err
+	}
+
+	config.Proposer = newProposer
 	if err := ms.Keeper.bridgeHook.BridgeProposerUpdated(ctx, bridgeId, config); err != nil {
 		return nil, err
 	}
@@ -416,7 +440,13 @@ func (ms MsgServer) UpdateChallenger(ctx context.Context, req *types.MsgUpdateCh
 		return nil, govtypes.ErrInvalidSigner.Wrapf("invalid authority; expected %s or %s, but got %s", ms.authority, config.Challenger, req.Authority)
 	}
 
-	config.Challenger = req.Challenger
+	// see UpdateProposer: store the canonical spelling of the new challenger
+	newChallenger, err := ms.canonicalAddress(req.Challenger)
+	if err != nil {
+		return nil, err
+	}
+
+	config.Challenger = newChallenger
 	if err := ms.Keeper.bridgeHook.BridgeChallengerUpdated(ctx, bridgeId, config); err != nil {
 		return nil, err
 	}
